@@ -112,6 +112,22 @@ def r15_7(chk, facts):
         if emplaces and guarded: chk.ok('R15.7', site, {'try_emplace_sites': len(emplaces)})
         else: chk.fail('R15.7', site, fn['file'], fn['l'], 'add_if_absent adds an object member %s' % ('outside a `!contains(key)` branch' if emplaces else 'without try_emplace'), None, fn['q'])
 
+def r15_8(chk, facts, rid='R15.8', floor=2):
+    """`if (ec)` means failure only if no failure code is zero."""
+    chk.rule(rid, 'error enumerations: in every *_errc enumeration of the unit no error enumerator has the value 0 (0 is reserved for an '
+                  'enumerator named success / ok, or unused): `ec = jsonpatch_errc::invalid_patch` followed by `if (ec)` must read as an error, '
+                  'otherwise the failing operation is reported as success and nothing is rolled back', floor=floor)
+    n = 0
+    for e in facts.enums:
+        nm = e['q'].split('::')[-1]
+        if not nm.endswith('errc'): continue
+        n += 1
+        zero = [k for k, v in e['values'] if v == 0]
+        site = '%s enum %s' % (e.get('file', ''), e['q'])
+        if not zero or all(z in ('success', 'ok', 'none', 'no_error') for z in zero): chk.ok(rid, site, {'zero': zero or None})
+        else: chk.fail(rid, site, e.get('file', ''), e.get('l', 0), 'enumerator %s::%s has the value 0: an error_code holding it converts to false, `if (ec)` takes it for success' % (e['q'], zero[0]), None, e['q'])
+    chk.require(n >= min(floor, 2) and n >= 1, '%s: only %d error enumerations found' % (rid, n))
+
 def r19_5(chk, facts):
     """Recording the inverse must not be able to fail once the mutation has happened."""
     chk.rule('R19.5', 'undo recording cannot fail: the undo entry that follows a mutation of the target in apply_patch is recorded without '
@@ -271,6 +287,7 @@ def run(chk, tier, only_rule=None):
             else: chk.fail('R15.3', site, fn['file'], last[0].line, 'an operation whose "op" matches none of the %d names is skipped without an error (no final else that stores ec and returns)' % len(opconds), None, fn['q'])
     r15_6(chk, facts)
     r15_7(chk, facts)
+    r15_8(chk, facts)
     # R15.4
     dts = [f for f in facts.functions if f.get('fk') == 'CXXDestructor' and 'operation_unwinder' in f['q'] and not f.get('dep') and f.get('body') is not None]
     chk.require(dts, '~operation_unwinder not found')
